@@ -218,15 +218,20 @@ class _ChildRec(object):
         self.oks.append((a, kw))
 
 
-def pristine(execute):
+def pristine(execute, modules=None):
     """wrap a histories `execute(hist, rec)` so that every history is replayed in a forked child of a worker
     that never runs the library itself: module-level state (caches keyed by file name, shared defaults) is
     pristine at the start of every history, so it is part of the explored state instead of leaking from one
-    history into the next, and a recorded history fails (or passes) the same way when replayed alone"""
+    history into the next, and a recorded history fails (or passes) the same way when replayed alone.  ``modules()``
+    (called in the child) names the modules whose mutable module-level data joins the canonical state key."""
     def wrapped(hist, rec):
         def run():
             cr = _ChildRec(rec.tmp)
             out = execute(hist, cr)
+            if modules is not None and isinstance(out, tuple) and len(out) == 2:
+                # what the history left behind at module level (a cache filled by a read) is part of the state: two
+                # histories that differ only in that must not be merged
+                out = ((out[0], module_state(*modules())), out[1])
             return cr.fails, cr.counts, out
         st, res = in_child(run)
         if st != "ok":
